@@ -432,6 +432,10 @@ func build(req *protocol.Request, rc ReqCase) *intent {
 			v.Files = append(v.Files, fileView{"file1", "a.txt", "", sum(c1)})
 			req.SetMultipartField("file2", "b.bin", "application/x-c11", reader(c2, b.Style))
 			v.Files = append(v.Files, fileView{"file2", "b.bin", "application/x-c11", sum(c2)})
+			// names that need quoted-string escaping in Content-Disposition
+			c3 := pat(40, 8)
+			req.SetMultipartField("fi\"le3", "c \"quoted\\name\".txt", "", reader(c3, b.Style))
+			v.Files = append(v.Files, fileView{"fi\"le3", "c \"quoted\\name\".txt", "", sum(c3)})
 		}
 		v.sort()
 		in.mp = v
